@@ -118,7 +118,8 @@ def analogLines (conv : Int → Int → α) (toI8 : α → Int) (mn ma xa : Nat)
 theorem readSync_nidq (conv : Int → Int → α) (pct : List (List α) → Option (List α)) (toI8 : α → Int)
     (mn ma xa ntr : Nat) (rows : List (List Int)) (thr : α) (floor : Bool) (P : List α)
     (hntr : mn + ma + xa + 1 = ntr) (hrows : ∀ r ∈ rows, r.length = ntr)
-    (hpct : floor = true → pct (rows.map (analogVolts conv mn ma xa)) = some P) (hP : P.length = xa) :
+    (hpct : floor = true → rows ≠ [] → pct (rows.map (analogVolts conv mn ma xa)) = some P)
+    (hP : P.length = xa) :
     readSync conv pct toI8 ntr (.nidq mn ma xa 1) rows thr floor =
       .ok (rows.map fun r => digitalLines ntr r ++ analogLines conv toI8 mn ma xa thr floor P r) := by
   have hd := readSyncDigital_one ntr (.nidq mn ma xa 1) rows
@@ -132,32 +133,41 @@ theorem readSync_nidq (conv : Int → Int → α) (pct : List (List α) → Opti
       (by intro r hr; have := hrows r hr; omega)
     cases floor with
     | false =>
-      simp only [ha, List.length_map, Bool.false_eq_true, if_false, if_true, List.map_map]
+      simp only [ha, List.length_map, Bool.false_eq_true, false_and, if_false, if_true, List.map_map]
       congr 1
       rw [zipWith_map_map]
       apply List.map_congr_left
       intro r _
       simp [Function.comp, digitalLines, analogLines, analogVolts, List.map_map]
     | true =>
-      simp only [ha, hpct rfl, if_true, Option.map_some, List.length_map, List.map_map]
-      congr 1
-      rw [zipWith_map_map]
-      apply List.map_congr_left
-      intro r _
-      simp only [Function.comp, digitalLines, analogLines, if_true]
-      congr 1
-      simp only [analogVolts]
-      rw [zipWith_range_getD _ _ _ 0 xa hP]
-      simp [List.map_map, Function.comp]
+      cases rows with
+      | nil => simp [ha]
+      | cons r0 rs =>
+        have hsz : ((r0 :: rs).map (analogVolts conv mn ma xa)).flatten.length ≠ 0 := by
+          simp [analogVolts]; omega
+        simp only [ha, hpct rfl (by simp), hsz, true_and, not_false_eq_true, ne_eq, if_true, Option.map_some,
+          List.length_map, List.map_map]
+        congr 1
+        rw [zipWith_map_map]
+        apply List.map_congr_left
+        intro r _
+        simp only [Function.comp, digitalLines, analogLines, if_true]
+        congr 1
+        simp only [analogVolts]
+        rw [zipWith_range_getD _ _ _ 0 xa hP]
+        simp [List.map_map, Function.comp]
 
-/-- Recorded behaviour (known finding): with analog lines, the floor requested and NumPy's percentile raising on
-an empty selection, `read_sync` of zero samples raises instead of returning zero rows. -/
-theorem readSync_empty_raises (conv : Int → Int → α) (pct : List (List α) → Option (List α)) (toI8 : α → Int)
-    (mn ma xa ntr : Nat) (thr : α) (hxa : 0 < xa) (hpct : pct [] = none) :
-    readSync conv pct toI8 ntr (.nidq mn ma xa 1) [] thr true = .error .indexError := by
-  have ha := readSyncAnalog_nidq conv mn ma xa 1 [] hxa (by simp)
-  unfold readSync
-  simp [readSyncDigital, syncIdx, pickRows, splitSyncArr, ha, hpct]
+/-- Zero selected samples: zero rows, whatever the percentile routine would do on an empty input (the
+`analog.size` guard of the fixed code). -/
+theorem readSync_empty (conv : Int → Int → α) (pct : List (List α) → Option (List α)) (toI8 : α → Int)
+    (mn ma xa ntr : Nat) (thr : α) (floor : Bool) :
+    readSync conv pct toI8 ntr (.nidq mn ma xa 1) [] thr floor = .ok [] := by
+  by_cases hxa : xa = 0
+  · subst hxa
+    simp [readSync, readSyncDigital, syncIdx, pickRows, splitSyncArr, readSyncAnalog, analogIdx]
+  · have ha := readSyncAnalog_nidq conv mn ma xa 1 [] (by omega) (by simp)
+    unfold readSync
+    simp [readSyncDigital, syncIdx, pickRows, splitSyncArr, ha]
 
 theorem readSync_imec (conv : Int → Int → α) (pct : List (List α) → Option (List α)) (toI8 : α → Int)
     (ap lf ntr : Nat) (rows : List (List Int)) (thr : α) (floor : Bool)
